@@ -150,6 +150,18 @@ def dispatch_obligations(ctx, r6, r7):
            unproven=err is not None,
            detail=f"slow for {sorted(got) if got is not None else err}; {short(ru or ())}",
            stmt="dispatch " + pretty(ru or ())[:200])
+    # the dispatchers are the ones the kernels actually run: no kernel overrides them
+    n_disp = 0
+    for mixin, mname, fi_ in ((tm, "transition", tfi), (um, "tune", ufi)):
+        for ci in repo.subclasses(mixin):
+            n_disp += 1
+            got_m = repo.lookup_method(ci, mname)
+            ctx.ob(r6, ci, f"{ci.name}.{mname} is the mixin's dispatcher (not overridden by the "
+                           f"kernel or a class in between)", got_m is not None
+                   and got_m.qualname == fi_.qualname,
+                   detail=f"resolves to {got_m.qualname if got_m else None}",
+                   stmt=f"{ci.name}.{mname} overridden")
+    ctx.require_min("kernels using the transition / tune dispatchers", n_disp, 7)
     want = {"is_adaptation": {"FAST_ADAPTATION", "SLOW_ADAPTATION"},
             "is_warmup": {"FAST_ADAPTATION", "SLOW_ADAPTATION", "BURNIN"}}
     for pname, expected in want.items():
